@@ -1399,7 +1399,7 @@ impl<R: std::io::Read> Decoder<R> {
             .blocks
             .streaminfo()
             .total_samples
-            .map(|total| total.get() - self.current_sample)
+            .map(|total| total.get().saturating_sub(self.current_sample))
         {
             Some(0) => return Ok(None),
             Some(remaining) => FrameHeader::read(crc16_reader.by_ref(), self.blocks.streaminfo())
@@ -1409,6 +1409,12 @@ impl<R: std::io::Read> Decoder<R> {
                 (u64::from(block_size) == remaining || block_size > 14)
                     .then_some(header)
                     .ok_or(Error::ShortBlock)
+            })
+            .and_then(|header| {
+                // a block may not run past the total given in STREAMINFO
+                (u64::from(u16::from(header.block_size)) <= remaining)
+                    .then_some(header)
+                    .ok_or(Error::TooManySamples)
             })?,
             // if total number of remaining samples isn't known,
             // treat an EOF error as the end of stream
